@@ -47,7 +47,7 @@ pub fn main(args: &[String]) -> i32 {
             eprintln!("SELFTEST: run {} (seed {:016x}) is not deterministic in-process: {:016x} vs {:016x}", i, s, a, b);
             bad += 1;
         }
-        println!("{} {} {:016x}", p.id(), i, a);
+        crate::say!("{} {} {:016x}", p.id(), i, a);
     }
     if bad > 0 {
         2
